@@ -336,6 +336,8 @@ SMALL_CAPS = [0, 1, 2, 3, 4, 5, 7, 8, 8, 12, 16, 16, 24, 40, 64]
 def rand_session(rng, nops=30, cmdset="raw", **kw):
     cap = rng.choice(SMALL_CAPS)
     hcap = rng.choice(SMALL_CAPS)
+    if rng.randrange(40) == 0:
+        cap, hcap = 24, 40          # the harness builds this pair with owned arrays as buffers (impl Buffer for [u8; N])
     return "%d %d %d %s %s" % (cap, hcap, rng.randrange(4), cmdset, ";".join(rand_session_ops(rng, nops, **kw)))
 
 
